@@ -125,3 +125,12 @@ Print Assumptions C18_nonvacuous.
 Print Assumptions C18_step_trace_gen.
 Print Assumptions C18_cut_no_dangling_gen.
 Print Assumptions C18_cut_below_gen.
+
+(* ---- further theorems of this property live in Props/C18b.v; required here so that the check of C18 re-checks them ---- *)
+From Traph Require Props.C18b.
+Print Assumptions Props.C18b.C18_cut_reads_total.
+Print Assumptions Props.C18b.C18_cut_lookup_total.
+Print Assumptions Props.C18b.C18_cut_pages_subset.
+Print Assumptions Props.C18b.C18_cut_pages_spec.
+Print Assumptions Props.C18b.C18_cut_links_subset.
+Print Assumptions Props.C18b.C18_history_ordered.
